@@ -173,3 +173,198 @@ Lemma in_reexpress_is_congruence I R_FB : rotation R_FB ->
   sym_to_m33 (in_reexpress ROps I R_FB) = m33_mul ROps (m33_mul ROps (m33_T R_FB) (sym_to_m33 I)) R_FB.
 Proof. intros H. unfold in_reexpress. rewrite (reexpress_is_congruence _ _ (rotation_T _ H)).
   unfold sym_congr. rewrite m33_T_T. reflexivity. Qed.
+
+(** ** F (continued). power, momentum and kinetic energy under re-expression and under a full transform *)
+Lemma power_invariant_under_reexpress F V R_FB : orthogonal R_FB ->
+  sv_dot ROps (sv_reexpress ROps F R_FB) (sv_reexpress ROps V R_FB) = sv_dot ROps F V.
+Proof. intros H. dm33 R_FB; dsv F; dsv V. orth_hyps H. unf. nsatz_or_fail. Qed.
+Lemma m33_mulv_mul (A B:Mat33 R) x : m33_mulv ROps (m33_mul ROps A B) x = m33_mulv ROps A (m33_mulv ROps B x).
+Proof. dm33 A; dm33 B; d3 x. vunf. teq; ring. Qed.
+Lemma sym_mulv_m33 (S:SymMat33 R) x : sym_mulv ROps S x = m33_mulv ROps (sym_to_m33 S) x.
+Proof. reflexivity. Qed.
+Lemma rot_mulv_Tmulv M x : orthogonal M -> m33_mulv ROps M (m33_Tmulv ROps M x) = x.
+Proof. intros H. dm33 M; d3 x. orth_hyps H. vunf. teq; nsatz_or_fail. Qed.
+Lemma rot_cross M a b : rotation M ->
+  v3_cross ROps (m33_Tmulv ROps M a) (m33_Tmulv ROps M b) = m33_Tmulv ROps M (v3_cross ROps a b).
+Proof. intros H. dm33 M; d3 a; d3 b. generalize (rot_cofactor _ _ _ _ _ _ _ _ _ H).
+  intros [[C1 [C2 C3]] [[C4 [C5 C6]] [C7 [C8 C9]]]]. clear H. vunf. teq; nsatz_or_fail. Qed.
+Lemma momentum_reexpresses m p G V R_FB : rotation R_FB ->
+  si_mul ROps (si_reexpress ROps (m,p,G) R_FB) (sv_reexpress ROps V R_FB) = sv_reexpress ROps (si_mul ROps (m,p,G) V) R_FB.
+Proof. intros H. cbv [si_mul si_reexpress si_m si_p si_G fst snd si_mulSV sv_reexpress].
+  rewrite !sym_mulv_m33, (in_reexpress_is_congruence G R_FB H).
+  rewrite !m33_mulv_mul. change (m33_mulv ROps (m33_T R_FB)) with (m33_Tmulv ROps R_FB).
+  rewrite (rot_mulv_Tmulv R_FB _ (proj1 H)). rewrite !(rot_cross R_FB _ _ H).
+  dm33 R_FB; d3 p; dsym G; dsv V. vunf. teq; ring. Qed.
+Lemma ke_invariant_under_reexpress m p G V R_FB : rotation R_FB ->
+  sv_dot ROps (sv_reexpress ROps V R_FB) (si_mul ROps (si_reexpress ROps (m,p,G) R_FB) (sv_reexpress ROps V R_FB))
+  = sv_dot ROps V (si_mul ROps (m,p,G) V).
+Proof. intros H. rewrite (momentum_reexpresses _ _ _ _ _ H). apply power_invariant_under_reexpress, H. Qed.
+Lemma ke_invariant_under_transform m p G V R_FB x : rotation R_FB ->
+  let V' := sv_reexpress ROps (sa_shiftVelocityBy ROps V x) R_FB in
+  sv_dot ROps V' (si_mul ROps (si_transform ROps (m,p,G) (R_FB,x)) V') = sv_dot ROps V (si_mul ROps (m,p,G) V).
+Proof. intros H V'. unfold V', si_transform. cbv [fst snd].
+  destruct (si_shift ROps (m,p,G) x) as [[m1 p1] G1] eqn:E.
+  rewrite (ke_invariant_under_reexpress _ _ _ _ _ H). rewrite <- E. apply ke_invariant_under_shift. Qed.
+
+
+(** ** C. inertias of point-mass clouds *)
+Lemma pointMass_quadratic_form p m u :
+  sym_quad ROps (in_pointMassAt ROps p m) u = m * v3_normSqr ROps (v3_cross ROps p u).
+Proof. d3 p; d3 u. unf. ring. Qed.
+Lemma Rabs_le_iff x b : Rabs x <= b <-> - b <= x <= b.
+Proof. unfold Rabs; destruct (Rcase_abs x); split; intros; lra. Qed.
+Lemma v3_normSqr_nonneg (v:Vec3 R) : 0 <= v3_normSqr ROps v.
+Proof. d3 v. vunf. nra. Qed.
+Definition masses_nonneg (pts : list (Vec3 R * R)) : Prop := Forall (fun pm => 0 <= snd pm) pts.
+Lemma sym_quad_add (A B:SymMat33 R) u : sym_quad ROps (sym_add ROps A B) u = sym_quad ROps A u + sym_quad ROps B u.
+Proof. dsym A; dsym B; d3 u. unf. ring. Qed.
+Lemma cloud_psd pts u : masses_nonneg pts -> 0 <= sym_quad ROps (cloud_inertia ROps pts) u.
+Proof. induction 1 as [|[p m] r Hm Hr IH]; simpl.
+  - d3 u. unf. lra.
+  - rewrite sym_quad_add, pointMass_quadratic_form. simpl in Hm.
+    generalize (v3_normSqr_nonneg (v3_cross ROps p u)); intros. nra. Qed.
+(** exact triangle inequalities, nonnegative moments and Mitiguy's product bounds for every cloud *)
+Definition triangle_and_product_bounds (S:SymMat33 R) (slop:R) : Prop :=
+  let '((a,b,c),(d,e,f)) := S in
+  (0 <= a /\ 0 <= b /\ 0 <= c) /\
+  (c <= a + b + slop /\ b <= a + c + slop /\ a <= b + c + slop) /\
+  (Rabs (2*f) <= a + slop /\ Rabs (2*e) <= b + slop /\ Rabs (2*d) <= c + slop).
+Lemma cloud_triangle pts : masses_nonneg pts -> triangle_and_product_bounds (cloud_inertia ROps pts) 0.
+Proof. induction 1 as [|[p m] r Hm Hr IH]; simpl.
+  - cbv [triangle_and_product_bounds]; unf. rewrite !Rmult_0_r. rewrite Rabs_R0. repeat split; lra.
+  - simpl in Hm. destruct (cloud_inertia ROps r) as [[[a b] c] [[d e] f]]. d3 p.
+    revert IH. cbv [triangle_and_product_bounds]; unf. intros [[A1 [A2 A3]] [[B1 [B2 B3]] [C1 [C2 C3]]]].
+    assert (Q: forall x y, 0 <= x*x + y*y - 2*(x*y) /\ 0 <= x*x + y*y + 2*(x*y)) by (intros x y; split; [replace (x*x + y*y - 2*(x*y)) with (Rsqr (x-y)) by (unfold Rsqr; ring) | replace (x*x + y*y + 2*(x*y)) with (Rsqr (x+y)) by (unfold Rsqr; ring)]; apply Rle_0_sqr).
+    generalize (Q px py) (Q px pz) (Q py pz). intros [Q1 Q2] [Q3 Q4] [Q5 Q6].
+    rewrite Rabs_le_iff in C1, C2, C3. rewrite !Rabs_le_iff.
+    repeat split; nra. Qed.
+
+(** ** D. the acceptance test Inertia_::isValidInertiaMatrix (translated) *)
+Definition sigR : R := 6369051672525773 / 316912650057057350374175801344.   (* NTraits<double>::getSignificant() *)
+Definition slopR (S:SymMat33 R) : R := Rmax (sym_trace ROps S) 1 * sigR.
+Lemma sigR_pos : 0 < sigR.
+Proof. unfold sigR. apply Rdiv_lt_0_compat; lra. Qed.
+Lemma slopR_pos S : 0 < slopR S.
+Proof. unfold slopR. apply Rmult_lt_0_compat; [|apply sigR_pos]. generalize (Rmax_r (sym_trace ROps S) 1); lra. Qed.
+Lemma Rmax_if t : (if Rleb t 1 then 1 else t) = Rmax t 1.
+Proof. unfold Rleb, Rmax. destruct (Rle_dec t 1); reflexivity. Qed.
+(** the test accepts exactly the symmetric matrices with nonnegative diagonal that satisfy the triangle
+    inequalities and the product bounds up to Slop = max(trace,1)*Significant: nothing else is rejected, nothing else accepted *)
+Lemma isValid_iff m : in_isValid ROps m = true <-> triangle_and_product_bounds m (slopR m).
+Proof. dsym m. cbv [in_isValid triangle_and_product_bounds slopR sigR]; unf.
+  rewrite Rmax_if. set (s := Rmax _ 1 * _).
+  split.
+  - intros H.
+    repeat match type of H with context[Rleb ?x ?y] => destruct (Rleb x y) eqn:?; cbn [negb andb] in H; try discriminate end.
+    rewrite ?Rleb_true in *. repeat split; lra.
+  - intros [[A1 [A2 A3]] [[B1 [B2 B3]] [C1 [C2 C3]]]].
+    rewrite <- Rleb_true in *.
+    repeat match goal with H : Rleb _ _ = true |- _ => rewrite H; clear H end. reflexivity. Qed.
+Lemma valid_implies_triangle a b c d e f : in_isValid ROps ((a,b,c),(d,e,f)) = true ->
+  let s := slopR ((a,b,c),(d,e,f)) in
+  (0 <= a /\ 0 <= b /\ 0 <= c) /\ (c <= a + b + s /\ b <= a + c + s /\ a <= b + c + s).
+Proof. intros H. apply isValid_iff in H. cbv [triangle_and_product_bounds] in H. tauto. Qed.
+(** rejection: a negative moment, a triangle violation beyond Slop, or an oversized product is rejected *)
+Lemma invalid_rejected a b c d e f : let s := slopR ((a,b,c),(d,e,f)) in
+  (a < 0 \/ b < 0 \/ c < 0 \/ a + b + s < c \/ a + c + s < b \/ b + c + s < a \/
+   a + s < Rabs (2*f) \/ b + s < Rabs (2*e) \/ c + s < Rabs (2*d)) ->
+  in_isValid ROps ((a,b,c),(d,e,f)) = false.
+Proof. intros s H. destruct (in_isValid ROps ((a,b,c),(d,e,f))) eqn:E; [|reflexivity].
+  apply isValid_iff in E. cbv [triangle_and_product_bounds] in E. fold s in E. exfalso. lra. Qed.
+(** completeness for genuine inertias: every point-mass cloud with nonnegative masses is accepted *)
+Lemma cloud_accepted pts : masses_nonneg pts -> in_isValid ROps (cloud_inertia ROps pts) = true.
+Proof. intros H. apply isValid_iff. generalize (cloud_triangle pts H) (slopR_pos (cloud_inertia ROps pts)).
+  destruct (cloud_inertia ROps pts) as [[[a b] c] [[d e] f]]. cbv [triangle_and_product_bounds]. intros; lra. Qed.
+(** ... but acceptance does not imply positive semidefiniteness: the accepted matrix with moments (1,2,2),
+    products xy=1, xz=-1, yz=1/2 has determinant -5/4 and u^T I u = -1 for u = (-2,1,-1) *)
+Definition witnessR : SymMat33 R := ((1,2,2),(1,-1,1/2)).
+Lemma valid_implies_psd_refuted :
+  exists (m:SymMat33 R) (u:Vec3 R), in_isValid ROps m = true /\ sym_quad ROps m u < 0 /\ sym_det ROps m < 0.
+Proof. exists witnessR, (-2,1,-1). split; [|split].
+  - apply isValid_iff. generalize (slopR_pos witnessR). cbv [triangle_and_product_bounds witnessR]. intros.
+    rewrite !Rabs_le_iff. lra.
+  - cbv [witnessR]; unf. lra.
+  - cbv [witnessR]; unf. lra. Qed.
+(** the same witness on the exact-rational instance of the translated test, by computation *)
+Lemma valid_implies_psd_refuted_Q :
+  in_isValid QOps ((1,2,2),(1,-1,1#2))%Q = true /\
+  (sym_quad QOps ((1,2,2),(1,-1,1#2)) (-2,1,-1) == -1)%Q /\ (sym_det QOps ((1,2,2),(1,-1,1#2)) == -5#4)%Q.
+Proof. repeat split; vm_compute; reflexivity. Qed.
+
+(** ** E. MassProperties_ against SpatialInertia_ (two separately written code paths) *)
+Lemma Rleb_eq0 m : m <> 0 -> andb (Rleb m 0) (Rleb 0 m) = false.
+Proof. intros H. destruct (Rleb m 0) eqn:A, (Rleb 0 m) eqn:B; try reflexivity.
+  apply Rleb_true in A, B. exfalso; lra. Qed.
+Lemma mp_ofInertia_nonzero m c I : m <> 0 -> mp_ofInertia ROps m c I = (m, c, sym_scale ROps (1/m) I).
+Proof. intros H. cbv [mp_ofInertia]. change (nleb ROps) with Rleb. change (nofZ ROps 0%Z) with 0.
+  rewrite (Rleb_eq0 m H). reflexivity. Qed.
+Lemma massprops_shift_agrees_with_spatial_inertia m p G S : m <> 0 ->
+  mp_calcShiftedMassProps ROps (m,p,G) S = si_shift ROps (m,p,G) S.
+Proof. intros H. cbv [mp_calcShiftedMassProps]. cbv [si_m si_p si_G fst snd]. rewrite (mp_ofInertia_nonzero _ _ _ H).
+  d3 p; dsym G; d3 S. unf. teq; field; exact H. Qed.
+Lemma in_reexpress_linear (I:SymMat33 R) Rm s : in_reexpress ROps (sym_scale ROps s I) Rm = sym_scale ROps s (in_reexpress ROps I Rm).
+Proof. dsym I; dm33 Rm. unf. teq; ring. Qed.
+Lemma spatial_inertia_transform_agrees_with_massprops m p G X : m <> 0 ->
+  mp_calcTransformedMassProps ROps (m,p,G) X = si_transform ROps (m,p,G) X.
+Proof. intros H. destruct X as [Rm x]. cbv [mp_calcTransformedMassProps si_transform mp_calcTransformedInertia]. cbv [si_m si_p si_G fst snd].
+  rewrite (mp_ofInertia_nonzero _ _ _ H), <- in_reexpress_linear.
+  generalize (massprops_shift_agrees_with_spatial_inertia m p G x H).
+  cbv [mp_calcShiftedMassProps]. cbv [si_m si_p si_G fst snd]. rewrite (mp_ofInertia_nonzero _ _ _ H).
+  intros E. rewrite <- E. cbv [si_reexpress si_m si_p si_G fst snd]. reflexivity. Qed.
+(** for a massless body MassProperties stores a zero unit inertia, so the two agree on the physical inertia m*G only *)
+Lemma massless_transform_agrees_on_inertia p G X :
+  mp_calcInertia ROps (mp_calcTransformedMassProps ROps (0,p,G) X) = sym_scale ROps 0 (si_G (si_transform ROps (0,p,G) X)).
+Proof. cbv [mp_calcTransformedMassProps mp_ofInertia]. cbv [si_m fst snd]. change (nleb ROps) with Rleb. change (nofZ ROps 0%Z) with 0.
+  assert (E: Rleb 0 0 = true) by (apply Rleb_true; lra). rewrite E. cbn [andb].
+  destruct (si_G (si_transform ROps (0,p,G) X)) as [[[a b] c] [[d e] f]]. unf. teq; ring. Qed.
+Lemma mp_reexpress_is_si_reexpress m p G Rm : mp_reexpress ROps (m,p,G) Rm = si_reexpress ROps (m,p,G) Rm.
+Proof. reflexivity. Qed.
+(** MassProperties_::calcCentralInertia / calcShiftedInertia are the translated Inertia_ shifts *)
+Lemma mp_calcShiftedInertia_is_shift m p G o :
+  mp_calcShiftedInertia ROps (m,p,G) o =
+  in_shiftFromMassCenter ROps (in_shiftToMassCenter ROps (mp_calcInertia ROps (m,p,G)) p m) (v3_sub ROps o p) m.
+Proof. reflexivity. Qed.
+
+(** ** articulated-body inertia: rigid shift *)
+Lemma ai_mul_ofSI m p G V : ai_mul ROps (ai_ofSI ROps (m,p,G)) V = si_mul ROps (m,p,G) V.
+Proof. d3 p; dsym G; dsv V. unf. teq; ring. Qed.
+(** ArticulatedInertia_::shift(s) of a rigid body's inertia is SpatialInertia_::shift(-s) (documented sign) *)
+Lemma ai_shift_of_rigid m p G s :
+  ai_shift ROps (ai_ofSI ROps (m,p,G)) s = ai_ofSI ROps (si_shift ROps (m,p,G) (v3_neg ROps s)).
+Proof. d3 p; dsym G; d3 s. unf. teq; ring. Qed.
+Ltac dai P := let M := fresh P "M" in let F := fresh P "F" in let J := fresh P "J" in destruct P as [[M F] J]; dsym M; dm33 F; dsym J.
+(** general ABI: P' = Phi P Phi^T with Phi = [1 sx; 0 1]; as an operator identity and for the quadratic form *)
+Lemma ai_shift_momentum P s V :
+  ai_mul ROps (ai_shift ROps P s) V = sa_shiftForceBy ROps (ai_mul ROps P (sa_shiftVelocityBy ROps V s)) (v3_neg ROps s).
+Proof. dai P; d3 s; dsv V. unf. teq; ring. Qed.
+Lemma sv_dot_comm (A B:SpatialVec R) : sv_dot ROps A B = sv_dot ROps B A.
+Proof. dsv A; dsv B. vunf. ring. Qed.
+Lemma ai_shift_quadratic_form P s V :
+  sv_dot ROps V (ai_mul ROps (ai_shift ROps P s) V)
+  = sv_dot ROps (sa_shiftVelocityBy ROps V s) (ai_mul ROps P (sa_shiftVelocityBy ROps V s)).
+Proof. rewrite ai_shift_momentum. set (V' := sa_shiftVelocityBy ROps V s). set (X := ai_mul ROps P V').
+  assert (E: V = sa_shiftVelocityBy ROps V' (v3_neg ROps s)).
+  { unfold V'. rewrite shiftVelocity_additive. d3 s.
+    replace (v3_add ROps (sx,sy,sz) (v3_neg ROps (sx,sy,sz))) with (0,0,0) by (vunf; teq; ring).
+    now rewrite shiftVelocity_zero. }
+  rewrite E at 1. rewrite sv_dot_comm, power_invariant_under_shift. apply sv_dot_comm. Qed.
+Lemma ai_shift_additive P a b : ai_shift ROps (ai_shift ROps P a) b = ai_shift ROps P (v3_add ROps a b).
+Proof. destruct (ai_shift ROps P a) as [[M1 F1] J1] eqn:E. dai P; d3 a; d3 b. dsym M1; dm33 F1; dsym J1.
+  revert E. unf. intros E. injection E; clear E; intros; subst. teq; ring. Qed.
+Lemma ai_shift_zero P : ai_shift ROps P (0,0,0) = P.
+Proof. dai P. unf. teq; ring. Qed.
+
+
+(** ** non-vacuity: the hypotheses used above are satisfiable on concrete non-trivial inputs *)
+Example rotation_example : rotation ((2/3,-1/3,2/3),(2/3,2/3,-1/3),(-1/3,2/3,2/3)).
+Proof. split; [split|]; cbv [I33]; vunf; [teq; field | teq; field | field]. Qed.
+Example cloud_example :
+  masses_nonneg (((1,2,0),3) :: ((0,-1,1),2) :: nil) /\
+  cloud_inertia ROps (((1,2,0),3) :: ((0,-1,1),2) :: nil) = ((16,5,17),(-6,0,2)).
+Proof. split. - repeat constructor; simpl; lra. - cbn [cloud_inertia]; unf. teq; ring. Qed.
+Example valid_example : in_isValid ROps ((16,5,17),(-6,0,2)) = true.
+Proof. apply isValid_iff. generalize (slopR_pos ((16,5,17),(-6,0,2))). cbv [triangle_and_product_bounds]. intros.
+  rewrite !Rabs_le_iff. lra. Qed.
+Example invalid_example : in_isValid ROps ((1,1,3),(0,0,0)) = false.
+Proof. apply invalid_rejected. right; right; right; left. cbv [slopR sigR]; unf.
+  assert (E: Rmax (1+1+3) 1 = 1+1+3) by (apply Rmax_left; lra). rewrite E. lra. Qed.
